@@ -134,6 +134,7 @@ type FuncSpec struct {
 	Ensures    []*Clause
 	TrustedEnsures []*Clause
 	Modifies   []ModItem
+	Preserves  []string // array-name substrings exempt from wildcard havoc
 	HasMod     bool
 	Allocates  bool
 	Event      bool
@@ -607,7 +608,7 @@ var clauseKeywords = map[string]bool{
 	"emits": true, "complete": true, "disjoint": true, "loop": true, "invariant": true,
 	"calls": true, "property": true, "guarded_by": true, "lock_level": true, "immutable": true,
 	"confined": true, "let": true, "trusted": true, "lemma": true, "decreases": true, "noinline": true,
-	"with": true, "panics": true, "ghost": true, "update": true, "trusted_ensures": true, "goroutine": true, "once_body": true,
+	"with": true, "panics": true, "ghost": true, "update": true, "trusted_ensures": true, "goroutine": true, "once_body": true, "preserves": true,
 }
 
 type rawClause struct {
@@ -962,6 +963,10 @@ func parseSpecFile(path string, pkg string) (sf *SpecFile, err error) {
 					mi.X = mustExpr(it, where)
 				}
 				cur.Modifies = append(cur.Modifies, mi)
+			}
+		case "preserves":
+			for _, it := range splitTop(rc.text, ',') {
+				cur.Preserves = append(cur.Preserves, strings.TrimSpace(it))
 			}
 		case "allocates":
 			cur.Allocates = true
